@@ -5,8 +5,9 @@ import ast
 
 from ..flow import call_name, dotted, norm, writes_in
 from ..index import AnalysisError, walk_local
-from ..lib import cfg_of, defs_of, live, nodes_with, return_nodes, witness
-from ..memo import _normal_path
+from ..lib import cfg_of, defs_of, has, live, nodes_with, return_nodes, witness
+from ..memo import _normal_path, excluded_conjunctions as _excluded_conjunctions
+from .. import shape as _sh
 
 U = "pint.util"
 REPR_FIELDS = ("_d", "_hash", "_one", "_non_int_type", "scale")
@@ -148,10 +149,11 @@ def run(ck, ix, tier):
     # hash memo: computed from the items
     f = uc.methods["__hash__"]
     ck.analysed(f)
-    src = norm(f.node)
     hs = [c for c in walk_local(f.node) if isinstance(c, ast.Call) and isinstance(c.func, ast.Name) and c.func.id == "hash"]
     stores = [a for a in walk_local(f.node) if isinstance(a, ast.Assign) and any(norm(t) == "self._hash" for t in a.targets)]
-    okh = len(hs) == 1 and norm(hs[0]) == "hash(frozenset(self._d.items()))" and len(stores) == 1 and stores[0].value is hs[0] and "is None" in src
+    # the one memo fill stores hash(frozenset(items)) (possibly through a temporary) and happens only while the memo is unset
+    okh = len(hs) == 1 and len(stores) == 1 and _sh.rnorm(stores[0].value, f.node) == "hash(frozenset(self._d.items()))" \
+        and _sh.holds_at(stores[0], f.node, lambda at: "self._hash is None" in _texts(at, f.node), True)
     ck.check(okh, "G-PROV", "UnitsContainer.__hash__|over-items", f.loc(),
              "hash over the (name, exponent) items, memoised", "the container hash is no longer hash(frozenset(items))")
 
@@ -162,43 +164,28 @@ def run(ck, ix, tier):
             if not isinstance(m.node, ast.FunctionDef):
                 continue
             for a in walk_local(m.node):
-                if not (isinstance(a, ast.AugAssign) and isinstance(a.target, ast.Subscript)):
-                    continue
-                tv = a.target.value
-                if isinstance(tv, ast.Name) and defs_of(m).single(tv.id) is not None:
-                    tv = defs_of(m).single(tv.id)                       # `exponents = new._d` is an alias of the table
-                tgt = dotted(tv) or dotted(a.target.value)
-                if tgt is None or not (tgt.endswith("._d") or tgt == "d"):
+                if not (isinstance(a, ast.AugAssign) and isinstance(a.target, ast.Subscript) and _is_exponent_table(a.target.value, m.node)):
                     continue
                 n_can += 1
                 ck.analysed(m)
                 key = f"{ci.name}.{m.name}|{norm(a.target)}"
+                entry = _texts(a.target, m.node)
                 if isinstance(a.op, (ast.Add, ast.Sub)):
-                    par = getattr(a, "_parent", None)
-                    body = None
-                    for fld in ("body", "orelse", "finalbody"):
-                        b = getattr(par, fld, None)
-                        if isinstance(b, list) and a in b:
-                            body = b
-                    nxt = body[body.index(a) + 1] if body and body.index(a) + 1 < len(body) else None
-                    ok = isinstance(nxt, ast.If) and norm(nxt.test).replace(" ", "") in (f"{norm(a.target)}==0".replace(" ", ""), f"not{norm(a.target)}".replace(" ", "")) \
-                        and any(isinstance(d, ast.Delete) and norm(d.targets[0]) == norm(a.target) for d in nxt.body) or \
-                        (isinstance(nxt, ast.If) and any(isinstance(c, ast.Call) and call_name(c) == "pop" and norm(c.func.value) == norm(a.target.value) for c in ast.walk(nxt)))
-                    ck.check(ok, "G-CANON", f"additive-update-removes-zero|{key}", m.loc(a), "a zero sum is removed right after the update",
+                    # some later statement of the same block removes this very entry where it is known to be zero
+                    ok = any(_follows(a, x) and _known_zero(x, m.node, entry)
+                             for x in _removals(m.node, a.target))
+                    ck.check(ok, "G-CANON", f"additive-update-removes-zero|{key}", m.loc(a), "a zero sum is removed after the update",
                              f"`{norm(a)}` is not followed by the removal of a zero exponent (a zero-exponent entry survives: u/u would not be dimensionless)")
                 elif isinstance(a.op, ast.Mult):
-                    # must be on the not-zero edge of a test of the factor against 0
-                    factor = norm(a.value)
+                    # the update runs only where "factor == 0 (and ...)" is known not to hold, and where it does hold the
+                    # table is cleared - whichever branch is written first
+                    factor = _texts(a.value, m.node)
                     guarded = False
-                    p = getattr(a, "_parent", None)
-                    child = a
-                    while p is not None and not isinstance(p, ast.FunctionDef):
-                        if isinstance(p, ast.If) and child in p.orelse and f"{factor} == 0" in norm(p.test):
-                            clears = any(isinstance(c, ast.Call) and call_name(c) == "clear" for s_ in p.body for c in ast.walk(s_))
-                            guarded = clears
-                        if isinstance(p, ast.If) and child in p.body and f"{factor} != 0" in norm(p.test):
-                            guarded = True
-                        child, p = p, getattr(p, "_parent", None)
+                    for excl in _excluded_conjunctions(a, m.node):
+                        if not any(_is_zero_atom(at, m.node, factor) and tr for at, tr in excl):
+                            continue
+                        clears = [c for c in walk_local(m.node) if isinstance(c, ast.Call) and call_name(c) == "clear" and isinstance(c.func, ast.Attribute) and _texts(c.func.value, m.node) & _texts(a.target.value, m.node)]
+                        guarded = guarded or any(all(_sh.holds_at(c, m.node, lambda x, at=at: norm(x) == norm(at), tr) for at, tr in excl) for c in clears)
                     ck.check(guarded, "G-CANON", f"multiplicative-update-excludes-zero-factor|{key}", m.loc(a),
                              "exponents are only scaled by a non-zero factor; a zero factor clears the container",
                              f"`{norm(a)}` can scale exponents by 0 and keep the zero entries (u ** 0 would not be dimensionless)")
@@ -208,30 +195,33 @@ def run(ck, ix, tier):
     # add(): store only non-zero, remove with default
     f = uc.methods["add"]
     ck.analysed(f)
-    stores = [a for a in walk_local(f.node) if isinstance(a, ast.Assign) and any(isinstance(t, ast.Subscript) and (dotted(t.value) or "").endswith("._d") for t in a.targets)]
+    stores = [a for a in walk_local(f.node) if isinstance(a, ast.Assign) and any(isinstance(t, ast.Subscript) and _is_exponent_table(t.value, f.node) for t in a.targets)]
     ck.floor("G-CANON", len(stores), 1, "exponent store in UnitsContainer.add")
     for a in stores:
-        par = getattr(a, "_parent", None)
-        ok = isinstance(par, ast.If) and a in par.body and norm(par.test) in (norm(a.value), f"{norm(a.value)} != 0")
-        ck.check(ok, "G-CANON", "UnitsContainer.add|stores-only-nonzero", f.loc(a), "the sum is stored only when non-zero", f"`{norm(a)}` can store a zero exponent")
-        if isinstance(par, ast.If):
-            pops = [c for s_ in par.orelse for c in ast.walk(s_) if isinstance(c, ast.Call) and call_name(c) == "pop"]
-            dels = [d for s_ in par.orelse for d in ast.walk(s_) if isinstance(d, ast.Delete)]
-            ck.check(bool(pops) or bool(dels), "G-CANON", "UnitsContainer.add|zero-sum-removes-entry", f.loc(par), "a zero sum removes the entry", "a zero sum leaves the old entry in place")
-            for c in pops:
-                ck.check(len(c.args) == 2, "G-CANON", "UnitsContainer.add|removal-tolerates-absent-key", f.loc(c), "pop with a default: the key may be absent",
-                         f"`{norm(c)}` raises KeyError when the key is absent (adding exponent 0 of a new unit, e.g. parse_units('m**0'))")
-            ck.check(not dels, "G-CANON", "UnitsContainer.add|removal-tolerates-absent-key(del)", f.loc(par), "no bare del", "a bare `del` raises KeyError when the key is absent")
-    # the summand is normalised to the container's numeric type
-    nv = [a for a in walk_local(f.node) if isinstance(a, ast.Assign) and norm(a.targets[0]) == "newval"]
-    for a in nv:
-        ck.check("self._d[key]" in norm(a.value) and "value" in norm(a.value) and isinstance(a.value, ast.BinOp) and isinstance(a.value.op, ast.Add), "G-PROV", "UnitsContainer.add|sum-of-old-and-new", f.loc(a),
-                 "new exponent = old + value", f"`{norm(a)}` is not old exponent + value")
+        tgt = [t for t in a.targets if isinstance(t, ast.Subscript)][0]
+        stored = _texts(a.value, f.node)
+        ck.check(_known_nonzero(a, f.node, stored), "G-CANON", "UnitsContainer.add|stores-only-nonzero", f.loc(a), "the sum is stored only when non-zero", f"`{norm(a)}` can store a zero exponent")
+        # where the sum is known to be zero the entry is removed, tolerating an absent key
+        rem = [x for x in _removals(f.node, tgt) if _known_zero(x, f.node, stored)]
+        ck.check(bool(rem), "G-CANON", "UnitsContainer.add|zero-sum-removes-entry", f.loc(a), "a zero sum removes the entry", "a zero sum leaves the old entry in place")
+        for c in [x for x in rem if isinstance(x, ast.Call)]:
+            ck.check(len(c.args) == 2, "G-CANON", "UnitsContainer.add|removal-tolerates-absent-key", f.loc(c), "pop with a default: the key may be absent",
+                     f"`{norm(c)}` raises KeyError when the key is absent (adding exponent 0 of a new unit, e.g. parse_units('m**0'))")
+        dels = [x for x in rem if isinstance(x, ast.Delete)]
+        ck.check(not dels, "G-CANON", "UnitsContainer.add|removal-tolerates-absent-key(del)", f.loc(dels[0]) if dels else f.loc(a), "no bare del", "a bare `del` raises KeyError when the key is absent")
+        # the stored value is the old exponent of that key plus the (normalised) summand
+        v = _sh.resolve(a.value, f.node)
+        key_txt = norm(tgt.slice)
+        ck.check(isinstance(v, ast.BinOp) and isinstance(v.op, ast.Add) and f"self._d[{key_txt}]" in norm(v) and "value" in {n_.id for n_ in ast.walk(v) if isinstance(n_, ast.Name)}, "G-PROV", "UnitsContainer.add|sum-of-old-and-new", f.loc(a),
+                 "new exponent = old + value", f"`{norm(a)}` (= `{norm(v)}`) is not old exponent + value")
     # operate(): cleanup
     f = ph.methods["operate"]
     ck.analysed(f)
-    src = norm(f.node)
-    ck.check("if cleanup:" in src and "value == 0" in src and "del d[key]" in src, "G-CANON", "ParserHelper.operate|zero-cleanup", f.loc(),
+    from ..memo import looked_through
+    fnx = looked_through(ix, f).node
+    zero_dels = [x for x in ast.walk(fnx) if isinstance(x, ast.Delete) and any(isinstance(t, ast.Subscript) and _is_exponent_table(t.value, fnx) for t in x.targets)]
+    zero_dels = [x for x in zero_dels if _sh.holds_at(x, fnx, lambda at: norm(at) == "cleanup", True) and _selected_zero(x, fnx) and not _sh.dead(x, fnx)]
+    ck.check(bool(zero_dels), "G-CANON", "ParserHelper.operate|zero-cleanup", f.loc(),
              "zero exponents are deleted after operating", "ParserHelper.operate no longer deletes zero exponents")
     dflt = f.node.args.defaults
     ck.check(any(isinstance(d, ast.Constant) and d.value is True for d in dflt), "G-CANON", "ParserHelper.operate|cleanup-default-true", f.loc(), "cleanup defaults to True", "cleanup no longer defaults to True")
@@ -240,12 +230,16 @@ def run(ck, ix, tier):
             if isinstance(c, ast.Call) and call_name(c) == "operate" and any(k.arg == "cleanup" and norm(k.value) != "True" for k in c.keywords):
                 ck.fail("G-CANON", f"ParserHelper.operate|caller-disables-cleanup|{g.qualname}", g.loc(c), f"`{norm(c)}` disables the zero-exponent cleanup")
     # __init__ does not filter zeros by itself: constructors from computed dicts must filter (infer_base_unit, registry accumulators)
-    for mod, qual, what in (("pint.util", "infer_base_unit", "nonzero_dict"),):
+    for mod, qual in (("pint.util", "infer_base_unit"),):
         g = ix.func(mod, qual)
         ck.analysed(g)
-        comps = [c for c in walk_local(g.node) if isinstance(c, ast.DictComp)]
-        ok = any(any("!= 0" in norm(i) for i in gen.ifs) for c in comps for gen in c.generators)
-        ck.check(ok, "G-CANON", f"{qual}|zero-exponents-filtered", g.loc(), "zero powers are filtered before building the container", f"{qual} can build a container with zero exponents")
+        # what reaches the container constructor is a copy of the accumulated table from which zero powers are filtered
+        built = [c for c in walk_local(g.node) if isinstance(c, ast.Call) and call_name(c) == "UnitsContainer" and c.args]
+        ck.floor("G-CANON", len(built), 1, f"UnitsContainer construction in {qual}")
+        for c in built:
+            ef = _sh.entry_facts(g.node, c.args[0])
+            ok = ef is not None and (("V == 0", False) in ef[0] or ("V", True) in ef[0])
+            ck.check(ok, "G-CANON", f"{qual}|zero-exponents-filtered", g.loc(c), "zero powers are filtered before building the container", f"{qual} can build a container with zero exponents")
 
     # ------------------------------------------------------------ (d) eq/hash agreement, delegation
     def self_attrs(fn):
@@ -263,7 +257,7 @@ def run(ck, ix, tier):
                  f"{ci.name}.__hash__ depends on {sorted(ha - ea)}, which __eq__ ignores: equal containers could hash differently")
     e = uc.methods["__eq__"]
     ck.analysed(e)
-    ck.check("dict.__eq__(self._d, other)" in norm(e.node), "G-PROV", "UnitsContainer.__eq__|compares-all-items", e.loc(), "equality compares the exponent dicts", "__eq__ no longer compares the full exponent dicts")
+    ck.check(has(ix, e, "dict.__eq__(self._d, _O)"), "G-PROV", "UnitsContainer.__eq__|compares-all-items", e.loc(), "equality compares the exponent dicts", "__eq__ no longer compares the full exponent dicts")
     pu = ix.cls("pint.facets.plain.unit", "PlainUnit")
     for name, op in (("__mul__", ast.Mult), ("__truediv__", ast.Div), ("__pow__", ast.Pow)):
         f = pu.methods[name]
@@ -279,13 +273,13 @@ def run(ck, ix, tier):
                              f"Unit.{name} is the container's {name}", f"`{norm(c)}` does not apply the container's `{name}` to (self._units, other)")
         ck.check(found, "G-TWIN", f"PlainUnit.{name}|delegation-present", f.loc(), "delegates to the container", f"PlainUnit.{name} no longer builds its result from self._units <op> other")
     f = pu.methods["__hash__"]
-    ck.check("self._units.__hash__()" in norm(f.node) or "hash(self._units)" in norm(f.node), "G-TWIN", "PlainUnit.__hash__|delegates", f.loc(), "hash of the container", "PlainUnit.__hash__ no longer hashes self._units")
+    ck.check(has(ix, f, "self._units.__hash__()") or has(ix, f, "hash(self._units)"), "G-TWIN", "PlainUnit.__hash__|delegates", f.loc(), "hash of the container", "PlainUnit.__hash__ no longer hashes self._units")
     f = pu.methods["__eq__"]
-    ck.check("self._units == other._units" in norm(f.node), "G-TWIN", "PlainUnit.__eq__|delegates", f.loc(), "units compared by container equality", "PlainUnit.__eq__ no longer compares the containers")
+    ck.check(has(ix, f, "self._units == other._units"), "G-TWIN", "PlainUnit.__eq__|delegates", f.loc(), "units compared by container equality", "PlainUnit.__eq__ no longer compares the containers")
     f = pu.methods["__rtruediv__"]
-    ck.check("1 / self._units" in norm(f.node) and "other / self._units" in norm(f.node), "G-TWIN", "PlainUnit.__rtruediv__|reciprocal", f.loc(), "reflected division inverts the container", "PlainUnit.__rtruediv__ no longer inverts self._units")
+    ck.check(has(ix, f, "1 / self._units") and has(ix, f, "other / self._units"), "G-TWIN", "PlainUnit.__rtruediv__|reciprocal", f.loc(), "reflected division inverts the container", "PlainUnit.__rtruediv__ no longer inverts self._units")
     f = uc.methods["__rtruediv__"]
-    ck.check("self ** (-1)" in norm(f.node) or "self ** -1" in norm(f.node), "G-TWIN", "UnitsContainer.__rtruediv__|reciprocal", f.loc(), "1/u == u**-1", "UnitsContainer.__rtruediv__ is no longer u ** -1")
+    ck.check(has(ix, f, "self ** (-1)"), "G-TWIN", "UnitsContainer.__rtruediv__|reciprocal", f.loc(), "1/u == u**-1", "UnitsContainer.__rtruediv__ is no longer u ** -1")
     # multiplication adds, division subtracts
     for name, op in (("__mul__", ast.Add), ("__truediv__", ast.Sub)):
         f = uc.methods[name]
@@ -328,6 +322,92 @@ def run(ck, ix, tier):
     _memo.rule_quantity_dimensionality_memo(ck, ix)
     _memo.rule_unit_dimensionality_memo(ck, ix)
     return EXPLANATION
+
+
+# ---------------------------------------------------------------- role-based helpers (no local names of pint are mentioned)
+def _is_exponent_table(e, fn) -> bool:
+    """`e` denotes an exponent table: `<obj>._d`, or a local name for it, or a local copy of one
+    (`<obj>._d.copy()`, `udict(<obj>._d)`, `dict(<obj>._d)`) that the function edits before building its result."""
+    v = _sh.unalias(e, fn)
+    if isinstance(v, ast.Attribute):
+        return v.attr == "_d"
+    if isinstance(v, ast.Call):
+        if call_name(v) == "copy" and isinstance(v.func, ast.Attribute) and isinstance(v.func.value, ast.Attribute) and v.func.value.attr == "_d" and not v.args:
+            return True
+        if call_name(v) in ("udict", "dict") and len(v.args) == 1 and isinstance(v.args[0], ast.Attribute) and v.args[0].attr == "_d":
+            return True
+    return False
+
+
+def _texts(e, fn) -> set:
+    """the spellings under which expression `e` may appear: as written and with local aliases/temporaries resolved"""
+    return {norm(e), _sh.rnorm(e, fn)}
+
+
+def _removals(fn, sub):
+    """Nodes of `fn` that remove the entry `sub` (= T[K]) from its table: `del T[K]` or `T.pop(K, ...)` (T possibly
+    through a local alias)."""
+    T, K = _texts(sub.value, fn), norm(sub.slice)
+    out = []
+    for x in walk_local(fn):
+        if isinstance(x, ast.Delete) and any(isinstance(t, ast.Subscript) and _texts(t.value, fn) & T and norm(t.slice) == K for t in x.targets):
+            out.append(x)
+        elif isinstance(x, ast.Call) and call_name(x) == "pop" and isinstance(x.func, ast.Attribute) and _texts(x.func.value, fn) & T and x.args and norm(x.args[0]) == K:
+            out.append(x)
+    return out
+
+
+def _follows(a, x) -> bool:
+    """`x` lies in a statement that comes after statement `a` in the same block."""
+    loc = _sh._block_and_index(a)
+    if loc is None:
+        return False
+    _, lst, idx = loc
+    cur = x
+    while cur is not None:
+        for j, st in enumerate(lst):
+            if st is cur:
+                return j > idx
+        cur = getattr(cur, "_parent", None)
+    return False
+
+
+def _is_zero_atom(at, fn=None, texts=None) -> bool:
+    """`at` is the positive comparison `<e> == 0` (either order), with <e> one of `texts` (any expression if None)."""
+    if not (isinstance(at, ast.Compare) and len(at.ops) == 1 and isinstance(at.ops[0], ast.Eq)):
+        return False
+    l, r = at.left, at.comparators[0]
+    for a_, b_ in ((l, r), (r, l)):
+        if isinstance(b_, ast.Constant) and b_.value == 0 and not isinstance(b_.value, bool):
+            if texts is None or (_texts(a_, fn) & texts):
+                return True
+    return False
+
+
+def _known_zero(x, fn, texts) -> bool:
+    """where `x` executes, the expression written as one of `texts` is known to be zero (`e == 0` holds / `e` is falsy)"""
+    return any((_is_zero_atom(at, fn, texts) and tr) or (bool(_texts(at, fn) & texts) and not tr) for at, tr in _sh.facts_at(x, fn))
+
+
+def _known_nonzero(x, fn, texts) -> bool:
+    """where `x` executes, the expression written as one of `texts` is known not to be zero (`e` truthy / `e == 0` false)"""
+    return any((_is_zero_atom(at, fn, texts) and not tr) or (bool(_texts(at, fn) & texts) and tr) for at, tr in _sh.facts_at(x, fn))
+
+
+def _selected_zero(x, fn) -> bool:
+    """The entry removed by `x` is one whose value is zero: `x` runs under `<value> == 0`, or in a loop over a
+    comprehension that selects the keys with `<value> == 0`."""
+    if _sh.holds_at(x, fn, lambda at: _is_zero_atom(at), True):
+        return True
+    cur = x
+    while cur is not None and cur is not fn:
+        cur = getattr(cur, "_parent", None)
+        if isinstance(cur, ast.For):
+            for comp in ast.walk(_sh.resolve(cur.iter, fn)):
+                if isinstance(comp, (ast.ListComp, ast.SetComp, ast.GeneratorExp)):
+                    if any(_is_zero_atom(at) and tr for g in comp.generators for i in g.ifs for at, tr in _sh.conjuncts(i, "t")):
+                        return True
+    return False
 
 
 def _path_normal(cfg, start, goal, gates):
